@@ -405,14 +405,18 @@ func replayRegion(args []string) {
 							// the same clause under LIMIT (an offset far beyond the result, a short slice) and under ORDER BY:
 							// skipping and ending early never read outside the envelope either
 							if kind == "select" && bs == bsizes[0] && (c.tier == "thorough" || idx%3 == int((envSeed()+1)%3)) {
-								for li, suffix := range []string{" limit 40, 5", " limit 1, 2", " order by value desc limit 2"} {
-									ol, shl := RunOn(q+suffix, pairs, RunOpts{Mode: mode, BSize: bs, Cache: true})
+								for li, suffix := range []string{" limit 40, 5", " limit 1, 2", " order by value desc limit 2", " group by value"} {
+									ql := q + suffix
+									if li == 3 { // the same clause under an aggregate (drains its input once, then hands out the groups)
+										ql = "select value, count(1) where " + text + suffix
+									}
+									ol, shl := RunOn(ql, pairs, RunOpts{Mode: mode, BSize: bs, Cache: true})
 									out.Stats.Evaluations++
 									out.Stats.bump("limited-access-runs")
 									if ol.Phase != "done" {
 										continue
 									}
-									out.Trace("access", accessTrace{ID: fmt.Sprintf("%s#s%d-%s-%s%d-l%d", id, si, kind, mode, bs, li), Q: q + suffix, Pins: fixPins(rc.Pins), Unsat: rc.Unsat, Events: compactEvents(shl.Log), Slack: 1})
+									out.Trace("access", accessTrace{ID: fmt.Sprintf("%s#s%d-%s-%s%d-l%d", id, si, kind, mode, bs, li), Q: ql, Pins: fixPins(rc.Pins), Unsat: rc.Unsat, Events: compactEvents(shl.Log), Slack: 1})
 								}
 							}
 							// the same statement with one of its first storage calls failing (cursor creation, the
